@@ -6,6 +6,7 @@ import Iota.Gen.B1T6
 import Iota.Tie.Expect
 import Iota.Model.B1T6
 import Iota.Tie.B1T8Code
+import Iota.Tie.Base32Code
 import Iota.Tie.B1T6Code
 
 namespace Iota.Tie.C14
@@ -36,8 +37,10 @@ theorem b1t8_masks : Gen.B1T6.b1t8Masks = [1,2,4,8,16,32,64,128] ∧
 theorem iotaGoCopy : Gen.B1T6.iotaGoCopyIdentical = true := by decide
 
 /-! Neither b1t6.go nor b1t8.go is pinned by text any more: all their functions — and the four functions of iota.go's
-`trinary` package that b1t6 calls — are translated as code and tied to the model for all inputs in
-`Iota/Tie/B1T6Code.lean` and `Iota/Tie/B1T8Code.lean` (re-exported below as `code_*`). -/
+`trinary` package that b1t6 calls — are translated as code and tied to the model in `Iota/Tie/B1T6Code.lean` and
+`Iota/Tie/B1T8Code.lean` (re-exported below as `code_*`): for all inputs of realistic length where the model is total
+(encoders, b1t8, the `trinary` helpers), and on the documented domain (trits in {-1,0,1}, characters `'9'…'Z'`) for the
+b1t6 decoders, whose behaviour outside it is characterised separately (`decode_gen`, `decodeTrytes_gen`). -/
 
 /-- everything else the package declares (imports, constants, types, variables, build constraints and the functions not
 pinned one by one) is unchanged too: no declaration of the modelled packages can change without a tie theorem failing. -/
@@ -120,5 +123,16 @@ theorem code_b1t6_decodeTrytes (src : List UInt8) (hn : 3 * src.length < 2 ^ 63)
       | .error e => some ([], errOf (some e))) ∧
     Gen.B1T6.b1t6.DecodeTrytes [97#8, 97#8] = none :=
   ⟨decodeTrytes_eq src hn hc, decodeTrytes_lowercase_panics⟩
+
+/-- the two length helpers of b1t8.go, translated as code: `8·n` and `n / 8` (as long as `8·n` does not overflow) -/
+theorem code_b1t8_lens (n : Nat) (h : n < 2 ^ 60) :
+    Gen.B1T6.b1t8.EncodedLen (BitVec.ofNat 64 n) = BitVec.ofNat 64 (n * 8) ∧
+    Gen.B1T6.b1t8.DecodedLen (BitVec.ofNat 64 n) = BitVec.ofNat 64 (n / 8) := by
+  constructor
+  · unfold Gen.B1T6.b1t8.EncodedLen
+    apply BitVec.eq_of_toNat_eq
+    simp [BitVec.toNat_mul]
+  · unfold Gen.B1T6.b1t8.DecodedLen
+    exact Iota.Tie.Base32Code.sdiv_ofNat n 8 (by omega) (by decide)
 
 end Iota.Tie.C14
